@@ -199,10 +199,13 @@ CHECKS = {
 }
 
 CHECKS["C17"] = dict(
-    cat="other", ref="§10.5 C17",
+    cat="other", ref="§10.5 C17, §10.12",
     text="Bounded solver verdict, two engines. (M) MIR -> bit-vector path conditions of Prover::try_from_bytes and "
          "Verifier::try_from_bytes with slices modelled by length: for ALL input lengths and ALL header values no "
-         "slice-index, expect or overflow panic is feasible. (K) Kani/CBMC harnesses on the real crate feed arbitrary "
+         "slice-index, expect or overflow panic is feasible; and of CompressedCircuit::from_bytes / unpack_bounded / "
+         "unpack_vec: for ALL capacities m and ALL integers read from the input every allocation-sizing call "
+         "(with_capacity, vec![x; n], counted collect, inflate limit) requests at most 857*m+30+4096 elements (loops: 0 "
+         "and 1 iteration; counterexamples replayed on the real decoder under a counting allocator). (K) Kani/CBMC harnesses on the real crate feed arbitrary "
          "byte strings of bounded length to Polynomial::from_slice, CommitKey::from_slice, Proof::from_bytes (quick) "
          "and CommitKey::from_raw_var_bytes (thorough): no panic, overflow, out-of-bounds access or "
          "unwinding-assertion failure. (S) symbolic execution with invalid-capable group elements (dlog + torsion + "
